@@ -9,7 +9,8 @@ Requests (tokens after `C09`), lists are comma separated, `-` = empty list:
 * `uniform L1 L2 indpb RS` (`indpb` and the `random()` results `RS` as float bit patterns)
 * `estwopoint G1 S1 G2 S2 c1 c2`
 * `pmx L1 L2 c1 c2`, `upmx L1 L2 indpb RS`, `ox L1 L2 a b` (natural-number genes)
-* `shuffle L indpb RS VS`, `flip L indpb RS`, `flipb L indpb RS` (Boolean genes),
+* `shuffle L indpb RS VS`, `flip L indpb RS`, `flipb L indpb RS` (Boolean genes), `flipf` (float-coded
+  genes; flip answers carry the gene-type signature of the mutant as an extra token),
   `uniformint L LOW UP indpb RS VS` (`LOW`,`UP` = `s:<int>` or `q:<list>`), `inversion L i1 i2`
 
 Answers: the contents of the argument objects after the call followed by the ids of the returned
@@ -34,6 +35,13 @@ def answer2 {α : Type} (sh : List α → String) (f : List α → List α → L
 def answer1 {α : Type} (sh : List α → String) (f : List α → List α) (l : List α) : String :=
   let r := inPlace1 f (heap2 l []) 0
   sh (r.2 0) ++ " " ++ toString r.1
+
+/-- `type(x)(not x)` keeps the gene type: the type signature of the mutant (one letter per gene) -/
+def typeSig (c : Char) (n : Nat) : String := if n = 0 then "-" else String.ofList (List.replicate n c)
+
+def answerFlip {α : Type} (sh : List α → String) (c : Char) (f : List α → List α) (l : List α) : String :=
+  let r := inPlace1 f (heap2 l []) 0
+  sh (r.2 0) ++ " " ++ typeSig c (r.2 0).length ++ " " ++ toString r.1
 
 def parseBound (s : String) : Option Bound :=
   if s.startsWith "s:" then (parseInt (s.drop 2).toString).map Bound.scalar
@@ -101,18 +109,27 @@ def handle : List String → String
     match (do let l ← parseList parseInt a; let pb ← parseFloat p; let rs ← parseList parseFloat r
               let vs ← parseList parseNat v; pure (l, pb, rs, vs)) with
     | some (l, pb, rs, vs) =>
-      if mutShuffleIndexesOk l (drawOpts pb rs vs) then answer1 showInts (fun x => mutShuffleIndexesR x pb rs vs) l
+      if mutShuffleIndexesOk l (drawOpts pb rs vs) then
+        match mutShuffleIndexesR l pb rs vs with
+        | some _ => answer1 showInts (fun x => (mutShuffleIndexesR x pb rs vs).getD x) l
+        | none => "reject"
       else "reject"
     | none => "bad-op"
   | ["flip", a, p, r] =>
     match (do let l ← parseList parseInt a; let pb ← parseFloat p; let rs ← parseList parseFloat r; pure (l, pb, rs)) with
     | some (l, pb, rs) =>
-      if mutFlipBitOk l (decisions pb rs) then answer1 showInts (fun x => mutFlipBitR x pb rs) l else "reject"
+      if mutFlipBitOk l (decisions pb rs) then answerFlip showInts 'i' (fun x => mutFlipBitR x pb rs) l else "reject"
+    | none => "bad-op"
+  | ["flipf", a, p, r] =>
+    -- float-coded genes (integral values travel as integers): `float(not x)` is `1.0` for `0.0`, else `0.0`
+    match (do let l ← parseList parseInt a; let pb ← parseFloat p; let rs ← parseList parseFloat r; pure (l, pb, rs)) with
+    | some (l, pb, rs) =>
+      if mutFlipBitOk l (decisions pb rs) then answerFlip showInts 'f' (fun x => mutFlipBitR x pb rs) l else "reject"
     | none => "bad-op"
   | ["flipb", a, p, r] =>
     match (do let l ← parseList parseBool a; let pb ← parseFloat p; let rs ← parseList parseFloat r; pure (l, pb, rs)) with
     | some (l, pb, rs) =>
-      if mutFlipBitOk l (decisions pb rs) then answer1 showBools (fun x => mutFlipBitR x pb rs) l else "reject"
+      if mutFlipBitOk l (decisions pb rs) then answerFlip showBools 'b' (fun x => mutFlipBitR x pb rs) l else "reject"
     | none => "bad-op"
   | ["uniformint", a, lo, hi, p, r, v] =>
     match (do let l ← parseList parseInt a; let low ← parseBound lo; let up ← parseBound hi; let pb ← parseFloat p
